@@ -5,9 +5,14 @@ depends on ... which results happened to be cached beforehand" also quantifies o
 run_tasks call left in a real storage: the history families of props/c06x.py (confusable tasks - ==-equal parameters of
 different types, same-named enum classes, same-qualname task classes of two modules - run one after the other over one
 storage; the __main__ script run twice; round trips through cached_tasks) are run alongside, and every violation they
-label with C01 (a run_tasks return value that is not the task's own value) is reported here."""
+label with C01 (a run_tasks return value that is not the task's own value) is reported here.
+
+"Keys are exactly the requested tasks, in request order, each once" rests on `labtech.utils.OrderedSet`, which the run model
+abbreviates as `dedup`: an extra phase (harness/osetrun.py) drives the real class and its own Lean model (Model/OSet.lean,
+theorems `oset_*` of Props/C01.lean) on generated operation sequences; a difference is a correspondence break of C01."""
 import threading
 
+import osetrun
 from props import c06x, dagprop
 
 FAMILIES = ('confusable', 'round-trip')
@@ -17,10 +22,16 @@ NOTE = ('history families of props/c06x.py over a real storage (confusable-task 
 
 
 def run(ctx):
+    if osetrun.replay_ops(ctx) is not None:
+        return osetrun.replay_result(ctx)
     if c06x.replay_kind(ctx) in c06x.KINDS:
         return c06x.replay_result(c06x.run_for(ctx, 'C01', c06x.FAMILIES, 101))
     if ctx.get('replay') or not ctx['driver_ok']:
         return dagprop.run(ctx, 'C01')
+    oset = osetrun.phase(ctx)
+    if oset.get('disagreements'):
+        # OrderedSet no longer is what the theorems are about: the scheduler search below runs enlarged
+        ctx = dict(ctx, proof_ok=False)
     box = {}
     th = threading.Thread(target=c06x.run_for_thread, args=(ctx, 'C01', FAMILIES, 101, box))
     th.start()
@@ -28,4 +39,4 @@ def run(ctx):
     th.join()
     if 'x' not in box:
         return dict(infra_error='the history families did not finish')
-    return c06x.merge_into(res, box['x'], NOTE)
+    return osetrun.merge_into(c06x.merge_into(res, box['x'], NOTE), oset)
